@@ -667,9 +667,11 @@ def stepCore (e : Env) (line : String) : Env × String :=
               | some k => ({ G := fun _ _ => 0, F := fun i => if i = k then 1 else 0, c := 0 } : DenseW)
               | none => toDense ex.d
             let mut g : List (String × String) := []
-            for i in List.range w.nP do
-              for j in List.range w.nP do
-                if d.G i j != (0 : Coef) then g := g ++ [(pad i ++ "_" ++ pad j, showRat (d.G i j))]
+            -- `d.G i j = 0` unless `i` and `j` both occur in an inner-product key: only those rows / columns are visited
+            let idxs : List Nat := ((ex.d.filterMap (fun kc => match kc.1 with | .ip i j => some [i, j] | _ => none)).flatten.eraseDups).mergeSort
+            for i in idxs do
+              for j in idxs do
+                if i < w.nP && j < w.nP && d.G i j != (0 : Coef) then g := g ++ [(pad i ++ "_" ++ pad j, showRat (d.G i j))]
             let mut f : List (String × String) := []
             for i in List.range w.nE do
               if d.F i != (0 : Coef) then f := f ++ [(pad i, showRat (d.F i))]
